@@ -8,15 +8,34 @@ Lemma positive_fills_are_guarded : cache_positive_fill_guarded = true /\ cache_b
 Proof. split; reflexivity. Qed.
 
 (* ---- schedules ----
-   One writer performing any number of Puts on a key and any number of readers performing Gets on
-   it, interleaved in any order at the granularity [storage call | cache fill / cache update]:
-   a Get that starts when c Puts have completed returns a version >= c, i.e. never a value older
-   than a write that had completed before the read began.  `no_stale` is the oracle the check
-   also evaluates on the observed timelines of the real cache. *)
+   One writer performing any program of Put / InsertIfNotExists writes on a key (each succeeding)
+   and any number of readers performing Get / TTLGet on it, the key present or absent at the start,
+   interleaved in any order at the granularity [storage call | cache fill / cache update]:
+   a read that starts when c writes have completed returns the content left by some write j >= c
+   (or, for c = 0, the initial content), i.e. never something older than a write that had completed
+   before the read began - this covers values and "not found" answers (negative cache entries).
+   `no_stale` is the oracle the check also evaluates on the observed timelines of the real cache. *)
+Lemma negative_fill_of_ttlget_is_guarded : cache_ttlget_negative_fill_guarded = true.
+Proof. reflexivity. Qed.
+
 Theorem no_stale_read_after_completed_write :
-  forall (puts : nat) (readers : list nat) (schedule : list pid) obs,
-  sch_run (sch_init puts readers) schedule = Some obs -> no_stale [] schedule obs = true.
-Proof. exact (fun puts readers ps obs => no_stale_after_complete_proved ps _ [] obs (Inv_init puts readers)). Qed.
+  forall (init : option N) (prog : list wop) (readers : list (list rop)) (schedule : list pid) obs,
+  Forall nodel prog ->
+  sch_run (sch_init init prog readers) schedule = Some obs ->
+  no_stale [init] prog false [] schedule obs = true.
+Proof.
+  exact (fun init prog readers ps obs Hp => no_stale_after_complete_proved ps _ [] obs false (Inv_init init prog readers Hp)).
+Qed.
+
+(* The restriction to programs without CompareAndDelete is necessary: a delete removes the cache
+   entry, so a reader that fetched the value before the delete completed re-fills it afterwards and
+   every later Get returns the deleted value (recorded finding F8b). *)
+Example no_stale_with_delete_refuted :
+  exists sched obs, sch_run (sch_init (Some 7%N) [WDel] [[OpGet]; [OpGet]]) sched = Some obs
+                    /\ no_stale [Some 7%N] [WDel] false [] sched obs = false.
+Proof.
+  exists [PR 0; PR 0; PW; PW; PR 0; PR 1]. eexists. split; [vm_compute; reflexivity|vm_compute; reflexivity].
+Qed.
 
 (* ---- sequential histories ----
    For every history of Put / Get / InsertIfNotExists / CompareAndSwap / CompareAndDelete / TTLGet /
@@ -41,9 +60,10 @@ Qed.
 
 (* non-vacuity *)
 Example no_stale_nonvacuous :
-  let sched := [PR 0; PR 0; PW; PW; PR 0; PR 1; PW; PR 1; PW; PR 1] in
-  exists obs, sch_run (sch_init 2 [1; 3]%nat) sched = Some obs /\ In (SGetHit 1 1) obs /\ In (SGetDone 0) obs.
-Proof. eexists. split; [vm_compute; reflexivity|]. split; cbn; tauto. Qed.
+  let sched := [PR 0; PR 0; PW; PW; PR 0; PR 1; PW; PR 1; PW; PR 1; PR 2; PR 2] in
+  exists obs, sch_run (sch_init None [WIns 1%N; WPut 2%N] [[OpTTLGet]; [OpGet; OpGet; OpGet]; [OpTTLGet; OpGet]]) sched = Some obs
+              /\ In (SGetHit 1 (Some 1%N)) obs /\ In (SGetDone None) obs /\ Forall nodel [WIns 1%N; WPut 2%N].
+Proof. eexists. split; [vm_compute; reflexivity|]. split; [cbn; tauto|]. split; [cbn; tauto|]. repeat constructor; discriminate. Qed.
 
 Example cache_transparent_nonvacuous :
   let K := fun k : bytes * bytes => fst k = [97%N; 97%N] in
